@@ -289,6 +289,15 @@ def check_probe(h, text, cells, meth, args, seed, twin=False):
     if exp is None:
         return None
     v = build(h)
+    if twin == 'pre':
+        # the receiver has been queried before the call (whatever those queries leave behind in the object must not show)
+        twin = False
+        for q in (lambda: v.settings_at(0), lambda: v.ansi_settings_at(len(text) - 1), lambda: str(v),
+                  lambda: v.find_settings(v.ansi_settings_at(0) or 'bold'), lambda: v.is_optimizable(), lambda: format(v, '')):
+            try:
+                q()
+            except Exception:  # noqa
+                pass
     if twin:
         v = AnsiStr(v)
     what = '%s.%s%r' % ('AnsiStr' if twin else 'AnsiString', meth, tuple(args))
@@ -381,7 +390,10 @@ def run_text(text, probes, acc):
         acc.state(model.canon_hash(v))
         acc.evaluations += 1
         for meth, args in probes:
-            for twin in ((False, True) if (meth != 'assign' and (not quick or li % 3 == 0)) else (False,)):   # quick: AnsiStr twin on every third layout
+            # quick: AnsiStr twin on every third layout; 'pre' = the receiver is queried before the call (always for
+            # assign_str, the in-place one; else on every third layout)
+            for twin in ((False, 'pre') if meth == 'assign' else (False, True) if (not quick or li % 3 == 0)
+                         else (False, 'pre') if li % 3 == 1 else (False,)):
                 acc.transitions += 1
                 case = {'hist': h, 'meth': meth, 'args': args, 'twin': twin}
                 acc.current = case
@@ -411,7 +423,7 @@ def run_long(text, probes, acc):
         acc.state(model.canon_hash(v))
         acc.evaluations += 1
         for meth, args in probes:
-            for twin in ((False, True) if meth != 'assign' else (False,)):
+            for twin in ((False, True) if meth != 'assign' else (False, 'pre')):
                 acc.transitions += 1
                 case = {'hist': h, 'meth': meth, 'args': args, 'twin': twin}
                 acc.current = case
